@@ -332,6 +332,7 @@ func genData(t *testing.T, tr *vhlib.Trace, r *vhlib.Rand, n int, defects bool) 
 	cache := vhlib.Pick(r, 0, 1, 4)
 	w := newWorld(t, tr, "data", cache)
 	defer w.close()
+	w.readBack = true
 	tr.Line(fmt.Sprintf("reset mode=data cache=%d", cache), "")
 	nv := 1 + r.Intn(3)
 	for i := 0; i < nv; i++ {
@@ -410,6 +411,25 @@ func genData(t *testing.T, tr *vhlib.Trace, r *vhlib.Rand, n int, defects bool) 
 		ids, total := w.liveVols()
 		switch x := r.Intn(100); {
 		case x < 22:
+			if r.Chance(1, 5) {
+				// the store of a sector fails: in the database, in the callback, or at the data write itself
+				// (new roots as well as roots that are stored already); afterFailed reads the root back
+				k := r.Intn(nroots + 4)
+				fault := vhlib.Pick(r, "data", "data", "cb", "db")
+				switch r.Intn(4) {
+				case 0:
+					w.doStoreTempF(k, uint64(20+r.Intn(30)), fault)
+					acked[k] = false
+				case 1:
+					if w.cache > 0 && r.Chance(1, 2) {
+						w.doRead(k) // the root may sit in the cache already
+					}
+					w.doWriteF(k, fault)
+				default:
+					w.doWriteF(k, fault)
+				}
+				break
+			}
 			write(r.Intn(nroots))
 			if r.Chance(1, 6) {
 				// the pruner runs while the upload is not yet referenced
@@ -505,7 +525,11 @@ func genData(t *testing.T, tr *vhlib.Trace, r *vhlib.Rand, n int, defects bool) 
 						}
 					}
 					ok := !r.Chance(1, 3)
-					w.doFinish(1, ok)
+					if ok {
+						w.doFinish(1, true)
+					} else {
+						w.doFinishF(1, false, vhlib.Pick(r, "", "data"))
+					}
 					if ok {
 						acked[k] = false
 					}
@@ -856,15 +880,15 @@ func replay(t *testing.T, tr *vhlib.Trace, ops []vhlib.ParsedLine) {
 		case "vmsetro":
 			w.doVmSetRO(v, op.Int("b") == 1)
 		case "write":
-			w.doWrite(op.Int("r"))
+			w.doWriteF(op.Int("r"), op.Args["fault"])
 		case "wbuf":
-			w.doWbuf(op.Int("r"), op.Int("b"))
+			w.doWbufF(op.Int("r"), op.Int("b"), op.Args["fault"])
 		case "storetemp":
-			w.doStoreTemp(op.Int("r"), op.U64("exp"))
+			w.doStoreTempF(op.Int("r"), op.U64("exp"), op.Args["fault"])
 		case "reserve":
 			w.doReserve(op.Int("w"), op.Int("r"))
 		case "finish":
-			w.doFinish(op.Int("w"), op.Int("ok") == 1)
+			w.doFinishF(op.Int("w"), op.Int("ok") == 1, op.Args["fault"])
 		case "read":
 			w.doRead(op.Int("r"))
 		case "mutate":
